@@ -35,6 +35,13 @@ CHECKS = {
         design_ref="DESIGN.md section 3, C03",
         note="Trusted: the harness's reference evaluator (written from the arithmetic definitions) and its integer classification. Only nowrap=true. Chain states are arbitrary, not only reachable ones. Cost limit ample; signatures not validated.",
     ),
+    "C15": dict(
+        engine="schedsim",
+        technique="deterministic simulation: real threads parked and released one at a time at every acquisition of BlsCache's (hooked) mutex by a seeded uniform / PCT scheduler; capacity pressure, evictions, snapshots and invalid signatures injected; ground truth by construction; capacity invariant at every scheduling step; deadlock and bounded-liveness detection; recorded schedules replayed and minimised",
+        text="Seeded search over (cache capacity x prior contents x 2-4 thread scripts x schedules at lock granularity). Every cache-assisted verdict, on the shared cache, on snapshots and in a final sequential sweep, must equal the verdict fixed by how the signature was constructed; len <= capacity is checked at every scheduling step; the cache-free verifiers (aggregate_verify, verify, aggregate_verify_gt, aggregate_pairing) are checked against the same ground truth. Exploration level: about 6 k schedules quick, 400 k thorough; a clean batch is evidence, not proof.",
+        design_ref="DESIGN.md section 3, C15",
+        note="Trusted: blst, the scheduler and the hooked Mutex wrapper (chia_bls::verif_hooks). Interleavings are explored at lock-acquisition granularity (evidence reports lock_sites_seen). Public keys outside the subgroup are not generated. Signatures outside the subgroup that still satisfy the pairing equation cannot be constructed with the available API, so the subgroup test inside aggregate_verify_gt is only exercised with points that fail the equation anyway.",
+    ),
     "C18": dict(
         engine="histsim",
         technique="deterministic simulation: seeded operation histories with injected failing operations and restarts (volatile index dropped, only blob bytes survive, in memory and through the real file path), stepped against a plain-map reference model with independent root/proof recomputation; minimised replay files",
@@ -84,7 +91,6 @@ def main():
     pending = {
         "C05": "claimed in DESIGN.md (schedsim); check not built yet in this commit",
         "C10": "claimed in DESIGN.md (histsim); check not built yet in this commit",
-        "C15": "claimed in DESIGN.md (schedsim); check not built yet in this commit",
     }
     for pid in sorted(set(NOT_APPLICABLE) | set(pending)):
         if pid in CHECKS:
